@@ -63,9 +63,9 @@ CLAIMS["C03"] = dict(
     note="Not decided: the functional sentence itself (equal arguments give equal results) - it is a property of whole executions. Design defect D9 (closure frames alias a stack array that append may reallocate) is outside what these contracts state.",
     ref="DESIGN.md section 4 C03")
 CLAIMS["C17"] = dict(
-    text="Proof (unbounded, every string) that the ATON step raises the conversion error only for a string that neither strconv.Atoi nor strconv.ParseFloat accepts, i.e. everything toa can render for a number is accepted back.",
-    note="Only this fragment. Not decided: toa/write rendering equality, fromto/elems/indices (library code written as syntax trees), read(). Assumed: Atoi/ParseFloat are deterministic functions of their argument.",
-    ref="DESIGN.md section 4 C17")
+    text="Proof (unbounded) of two instruction-level contracts: (1) for every string, the ATON step raises the conversion error only when neither strconv.Atoi nor strconv.ParseFloat accepts it, so everything toa renders for a number is accepted back; (2) the READ step reads from the one buffered reader the machine was created with, so input the reader has buffered beyond the current line is still there for the next read(). Also: nested for loops get disjoint iterator-context ids (the compiler's context-id precondition), which the generator built-ins rely on.",
+    note="Not decided: toa/write rendering equality, fromto/elems/indices (library code written as syntax trees and run by compiler+VM), argument-type errors of the built-ins. Assumed: Atoi/ParseFloat are deterministic functions of their argument; bufio.Reader keeps what it has buffered.",
+    ref="DESIGN.md section 4 C17 and change log")
 CLAIMS["C19"] = dict(
     text="Proof (unbounded) that every error exit of vm.Run calls dumpStack with the instruction pointer of the failing instruction and a non-nil error, that this ip lies inside the code segment, that dumpStack's window slice (*CS)[max(0,ip-3):min(len,ip+3)] and its indexing never fail, that the error returned is the error raised, and that the main context is reset afterwards whichever context failed.",
     note="Not decided: the call list printed by memory.DumpStack (depends on debug info matching the frames; trusted pure here), operand values shown. Clone's ensures[shape] (C18) covers the stale-frame-pointer variant.",
@@ -88,12 +88,28 @@ CLAIMS["C07"] = dict(
     note="NOT decided: the round trip print-then-parse over all trees, precedence levels and layout insensitivity: the grammar functions in parser.go are closures assembled from combinators whose result lists have no contract (C13 decides positions only), and no printer exists in the repository. Assumed: the item lists handed to the builders have the shapes the grammar produces (odd length with operators at odd positions; type assertions succeed).",
     ref="DESIGN.md change log B.2")
 
+CLAIMS["C16"] = dict(
+    text="Proof (unbounded) of two mechanisms behind 'all three run modes execute the same program the same way': (1) every path from parsed text to the compiler resolves names first - the compiler entry points ByteCode/ByteCodeNoStck demand a tree produced by STRewrite, and processInput (script and REPL mode) and the -eval branch of cmd/calc's main are checked against that demand at their call sites; (2) the script-file reader never reports an error together with data, which is exactly what Loop (it discards the line that comes with a read error) needs so that a final line without a newline is executed.",
+    note="NOT decided: equality of outputs across modes, that -eval runs more than the first statement, the brace/quote/bracket counting heuristic of Loop against the lexical structure (needs a string theory for strings.Count), readline behaviour. Assumed: STRewrite really produces a resolved tree (trusted type contract), builtin.Load (hand-built trees) is not checked, bufio.ReadString may return data with an error (that is the point of the obligation), every other external of main is havocked.",
+    ref="DESIGN.md change log B.2")
+
 NA = {
  "C01": "no contract within reach decides it: the property equates the results of whole executions (compiler + VM) with a definitional evaluator; the function-level pieces it depends on are claimed separately (C05 interface, C11 operators, C12 structural contract K, C18 memory); composing them needs a VM step semantics and a simulation argument, which is a model, not a contract on one function",
  "C07": "no contract within reach decides it: the statement quantifies over all syntax trees printed by documented rules and re-parsed; the grammar functions are mutually recursive closures built at init time from combinators whose result lists are unspecified (C13 decides only positions); a round-trip contract would need a printer that does not exist in the repository (writing one would be a model)",
  "C16": "no contract within reach decides it: the property compares outputs of three whole-program run modes of cmd/calc (process-level behaviour, stdin/files); the line-accumulation loop and readers are I/O bound and their externals (bufio, readline, os) have no usable contracts here",
 }
 NA_DEFAULT = "not applicable"
+
+OPEN = {
+ "C18": " Open listed finding (KNOWN-FINDING line on every run): growStack#ensures[frames_stay_valid] - growing the value stack moves it and strands closure frames captured before (DESIGN.md B.3 D9).",
+ "C03": " Open listed finding: growStack#ensures[frames_stay_valid] - the same call can return different results depending on whether the stack was reallocated inside it (D9).",
+ "C04": " Open listed finding: Run#atcall[returned_array_closures_detached@m.PopClosure()] - a closure returned inside an array is not detached from the popped frame (D11). Name resolution (Name.STRewrite: own slot, else immediately enclosing function, else global) and the slot count of function literals are now under contract too.",
+ "C05": " Open listed finding: EncodeSrc#nopanic[srcAddr out of range] - oversized programs are refused by a Go panic, i.e. by aborting the process (D15b).",
+ "C15": " Open listed finding: EncodeSrc#nopanic[srcAddr out of range] - the refusal of an operand that does not fit is a panic, not an error (D15b); nothing is executed with wrapped addresses.",
+ "C14": " Open listed finding: Next#ensures[text_is_span_strlit] - the text of a string-literal token has backslash-n replaced by a line feed and is therefore not the span's text (D21, pinned by lexer_test.go).",
+}
+for k, v in OPEN.items():
+    CLAIMS[k]["note"] += v
 
 props = [json.loads(l) for l in open("/verif/properties.jsonl")]
 checks = []
